@@ -6,6 +6,7 @@ CONSTANTS
   Keys = {"x", "y"}
   Vals = {"1", "2"}
   MaxLoops = 4
+  Construct = TRUE
   Concurrent = FALSE
 INVARIANT TypeOK
 INVARIANT CycleBounded
